@@ -15,6 +15,7 @@ edit of one of these functions in the source breaks a proof obligation (besides 
 Fail-closed: any construct outside the small subset raises TranslatorError.
 """
 import ast
+import os
 
 from translate import TranslatorError, _parse, _find_func, _strip_doc
 
@@ -49,8 +50,17 @@ class IntTrans:
             return e.id
         if isinstance(e, ast.Constant) and isinstance(e.value, int) and not isinstance(e.value, bool):
             return str(e.value) if e.value >= 0 else f"({e.value})"
+        if isinstance(e, ast.Subscript) and isinstance(e.value, ast.Name):
+            idx = e.slice
+            if isinstance(idx, ast.Constant) and isinstance(idx.value, int):
+                return f"{e.value.id}_{idx.value}"
+            if isinstance(idx, ast.Name):
+                return f"{e.value.id}_{idx.id}"
+            raise TranslatorError("unsupported subscript")
         if isinstance(e, ast.Call) and isinstance(e.func, ast.Name):
             f = e.func.id
+            if f == "len" and len(e.args) == 1 and isinstance(e.args[0], ast.Name):
+                return "len_" + e.args[0].id
             if f in WIDTH and len(e.args) == 1:
                 return self.wrap(f, self.expr(e.args[0]))
             if f in self.known:
@@ -78,6 +88,8 @@ class IntTrans:
                 return f"(wrap64 ({a} + {b}))"
             if op is ast.Sub:
                 return f"(wrap64 ({a} - {b}))"
+            if op is ast.FloorDiv:
+                return f"({a} / {b})"
             raise TranslatorError(f"unsupported operator {op.__name__}")
         raise TranslatorError(f"unsupported expression {ast.dump(e)[:80]}")
 
@@ -105,8 +117,10 @@ class IntTrans:
     def has_return(stmts):
         return any(isinstance(n, ast.Return) for s in stmts for n in ast.walk(s))
 
-    def block(self, stmts, ret_ty, tail=None):
-        """Gallina term for a statement list.  tail: term to continue with when the block falls through."""
+    def block(self, stmts, ret_ty, tail=None, defined=None):
+        """Gallina term for a statement list.  tail: term to continue with when the block falls through.
+        defined: names in scope (a variable first assigned inside an if-branch is local to that branch)."""
+        defined = set(defined or ())
         if not stmts:
             if tail is None:
                 raise TranslatorError("function may fall off its end")
@@ -115,20 +129,27 @@ class IntTrans:
         if isinstance(s, ast.Return):
             return self.wrap(ret_ty, self.expr(s.value))
         if isinstance(s, ast.Assign) and len(s.targets) == 1 and isinstance(s.targets[0], ast.Name):
-            return f"let {s.targets[0].id} := {self.expr(s.value)} in\n  {self.block(rest, ret_ty, tail)}"
+            v = s.value
+            if isinstance(v, ast.Subscript) and isinstance(v.slice, ast.Slice):
+                # `tail = key[n:]`: a view; its elements appear as parameters tail_0, tail_1, ...
+                return self.block(rest, ret_ty, tail, defined)
+            n = s.targets[0].id
+            return f"let {n} := {self.expr(s.value)} in\n  {self.block(rest, ret_ty, tail, defined | {n})}"
         if isinstance(s, ast.AugAssign) and isinstance(s.target, ast.Name):
             e = self.expr(ast.BinOp(left=ast.Name(id=s.target.id), op=s.op, right=s.value))
-            return f"let {s.target.id} := {e} in\n  {self.block(rest, ret_ty, tail)}"
+            return f"let {s.target.id} := {e} in\n  {self.block(rest, ret_ty, tail, defined | {s.target.id})}"
         if isinstance(s, ast.If):
             c = self.cond(s.test)
             if self.has_return(s.body) or self.has_return(s.orelse):
-                cont = self.block(rest, ret_ty, tail) if (rest or tail is not None) else None
-                return (f"if {c} then ({self.block(s.body, ret_ty, cont)})\n  else ({self.block(s.orelse, ret_ty, cont)})")
-            vs = self.assigned([s])
+                cont = self.block(rest, ret_ty, tail, defined) if (rest or tail is not None) else None
+                return (f"if {c} then ({self.block(s.body, ret_ty, cont, defined)})\n  else ({self.block(s.orelse, ret_ty, cont, defined)})")
+            vs = [v for v in self.assigned([s]) if v in defined]
+            if not vs:
+                raise TranslatorError("if statement without effect on the variables in scope")
             tup = vs[0] if len(vs) == 1 else "(" + ", ".join(vs) + ")"
             pat = vs[0] if len(vs) == 1 else "'(" + ", ".join(vs) + ")"
-            return (f"let {pat} := (if {c} then ({self.block(s.body, None, tup)}) else ({self.block(s.orelse, None, tup)})) in\n  "
-                    f"{self.block(rest, ret_ty, tail)}")
+            return (f"let {pat} := (if {c} then ({self.block(s.body, None, tup, defined)}) else ({self.block(s.orelse, None, tup, defined)})) in\n  "
+                    f"{self.block(rest, ret_ty, tail, defined)}")
         raise TranslatorError(f"unsupported statement {type(s).__name__}")
 
     def function(self, fn):
@@ -143,10 +164,21 @@ class IntTrans:
                 pre += f"let {n} := wrap{WIDTH[t]} {n} in\n  "
             elif t not in WIDTH:
                 raise TranslatorError(f"{fn.name}: parameter type {t}")
-        term = self.block(body, rt)
+        term = self.block(body, rt, None, set(names))
         self.known[fn.name] = (ps, rt)
         gname = "gen_" + fn.name.lstrip("_")
         return f"Definition {gname} ({' '.join(names)} : Z) : Z :=\n  {pre}{term}.\n"
+
+
+    def region(self, name, stmts, params, result=None, ret_ty=None):
+        """A straight-line region of a function as a Gallina function of `params`.
+        result: name(s) of the variable(s) whose value the region produces (when it does not end in `return`)."""
+        tail = None
+        if result is not None:
+            tail = result if isinstance(result, str) else "(" + ", ".join(result) + ")"
+        term = self.block(list(stmts), ret_ty, tail, set(params))
+        rty = "Z" if (result is None or isinstance(result, str)) else "(" + " * ".join(["Z"] * len(result)) + ")"
+        return f"Definition {name} ({' '.join(params)} : Z) : {rty} :=\n  {term}.\n"
 
 
 class RealTrans:
@@ -218,24 +250,81 @@ class RealTrans:
         raise TranslatorError(f"real mode: unsupported statement {type(s).__name__}")
 
 
-def generate_kernels(repo):
-    import os
-    src = os.path.join(repo, "sketchnu")
-    out = ["(* GENERATED by harness/pytrans.py from /repo — do not edit.  Loop-free leaf kernels, translated from the AST. *)",
-           "From Coq Require Import ZArith Bool Reals.", "From Sketchnu Require Import Machine.", "Open Scope Z_scope.", ""]
+HDR = ["(* GENERATED by harness/pytrans.py from the repository - do not edit.  Loop-free kernels, translated from the AST. *)",
+       "From Coq Require Import ZArith Bool Reals.", "From Sketchnu Require Import Machine.", "Open Scope Z_scope.", ""]
+
+# name -> Gallina signature, used to emit a POISONED definition (constant -1) when a kernel cannot be translated:
+# the generated file still compiles, the tie lemma of that source file fails, and only the properties that import
+# that tie are affected
+POISON = {
+    "hashes": [("gen_xor_shiftl", 3), ("gen_fhmix64", 1), ("gen_xor32", 2), ("gen_shift32r", 2), ("gen_shift32l", 2),
+               ("gen_rotl32", 2), ("gen_fmix32", 1), ("gen_fh_init", 2), ("gen_fh_block", 3), ("gen_fh_finish", 10),
+               ("gen_fh32_fin", 1), ("gen_mm_block", 5), ("gen_mm_finish", 7)],
+    "hll": [("gen_n_leading_zeros64", 1)],
+}
+
+
+def _poison_int(names):
+    return "".join(f"Definition {n} ({' '.join('x%d' % i for i in range(k))} : Z) : Z := -1.  (* translation failed *)\n"
+                   for n, k in names)
+
+
+def _hashes(src):
+    out = list(HDR)
     h = _parse(os.path.join(src, "hashes.py"))
     it = IntTrans({})
     for name in ("_xor_shiftl", "_fhmix64", "_xor32", "_shift32r", "_shift32l", "_rotl32", "_fmix32"):
         out.append(f"(* hashes.py {name} *)")
         out.append(it.function(_find_func(h, name)))
+    # ---- fasthash64 / fasthash32 / murmur3: everything except the loop headers, region by region
+    fh = _strip_doc(_find_func(h, "fasthash64"))
+    shape = [type(x).__name__ for x in fh]
+    if shape != ["Assign", "Assign", "Assign", "Assign", "If", "Assign", "If", "Return"]:
+        raise TranslatorError(f"fasthash64: unexpected statement shape {shape}")
+    loop = [x for x in fh[4].body if isinstance(x, ast.For)]
+    if len(loop) != 1 or fh[4].orelse:
+        raise TranslatorError("fasthash64: block loop not found")
+    out.append("(* hashes.py fasthash64 l.63-68: initial state from (seed, len(key)) *)")
+    out.append(it.region("gen_fh_init", fh[0:4], ["seed", "len_key"], result="h"))
+    out.append("(* fasthash64 l.74-76: body of the loop over the 8-byte blocks *)")
+    out.append(it.region("gen_fh_block", loop[0].body, ["h", "v", "m"], result="h"))
+    out.append("(* fasthash64 l.80-145: the seven-way tail switch and the final mix *)")
+    out.append(it.region("gen_fh_finish", fh[5:], ["h", "key_len", "m"] + [f"tail_{i}" for i in range(7)], ret_ty="uint64"))
+    f32 = _strip_doc(_find_func(h, "fasthash32"))
+    if [type(x).__name__ for x in f32] != ["Assign", "Return"]:
+        raise TranslatorError("fasthash32: unexpected shape")
+    out.append("(* hashes.py fasthash32 l.168: folding of the 64-bit hash *)")
+    out.append(it.region("gen_fh32_fin", f32[1:], ["h"], ret_ty="uint32"))
+    mm = _strip_doc(_find_func(h, "murmur3"))
+    shape = [type(x).__name__ for x in mm]
+    if shape != ["Assign", "Assign", "Assign", "Assign", "Assign", "Assign", "Assign", "Assign", "For", "Assign", "Assign", "If",
+                 "Assign", "Assign", "Return"]:
+        raise TranslatorError(f"murmur3: unexpected statement shape {shape}")
+    out.append("(* hashes.py murmur3 l.241-249: body of the loop over the 4-byte blocks *)")
+    out.append(it.region("gen_mm_block", mm[8].body, ["h", "blocks_i", "c1", "c2", "c3"], result="h"))
+    out.append("(* murmur3 l.251-278: tail switch, length xor, final mix *)")
+    out.append(it.region("gen_mm_finish", mm[9:], ["h", "key_len", "c1", "c2"] + [f"tail_{i}" for i in range(3)], ret_ty="uint32"))
+    return "\n".join(out) + "\n"
+
+
+def _hll(src):
+    out = list(HDR)
     hl = _parse(os.path.join(src, "hyperloglog.py"))
     out.append("(* hyperloglog.py _n_leading_zeros64 *)")
     out.append(IntTrans({}).function(_find_func(hl, "_n_leading_zeros64")))
+    return "\n".join(out) + "\n"
+
+
+REAL_SIGS = (("_func", ["max_count", "num_reserved", "uint_max"], "(base : R) (max_count num_reserved uint_max : Z)"),
+             ("_funcprime", ["max_count", "num_reserved", "uint_max"], "(base : R) (max_count num_reserved uint_max : Z)"),
+             ("_counter2value", ["counter", "num_reserved"], "(counter num_reserved : Z) (base : R)"))
+
+
+def _countmin(src):
+    out = list(HDR)
     cm = _parse(os.path.join(src, "countmin.py"))
     out.append("Open Scope R_scope.")
-    for name, zs, sig in (("_func", ["max_count", "num_reserved", "uint_max"], "(base : R) (max_count num_reserved uint_max : Z)"),
-                          ("_funcprime", ["max_count", "num_reserved", "uint_max"], "(base : R) (max_count num_reserved uint_max : Z)"),
-                          ("_counter2value", ["counter", "num_reserved"], "(counter num_reserved : Z) (base : R)")):
+    for name, zs, sig in REAL_SIGS:
         fn = _find_func(cm, name)
         names = [a.arg for a in fn.args.args]
         want = [w for w in sig.replace("(", " ").replace(")", " ").replace(":", " ").split() if w not in ("R", "Z")]
@@ -247,6 +336,30 @@ def generate_kernels(repo):
     return "\n".join(out) + "\n"
 
 
+def generate_kernels(repo):
+    """{file name: text}, {group: error}.  One generated module per source file; a source file whose kernels
+    cannot be translated gets poisoned definitions (the module still compiles, its tie lemmas do not)."""
+    src = os.path.join(repo, "sketchnu")
+    texts, errors = {}, {}
+    for group, fname, fn in (("hashes", "KernelsHashes.v", _hashes), ("hll", "KernelsHll.v", _hll),
+                             ("countmin", "KernelsCountmin.v", _countmin)):
+        try:
+            texts[fname] = fn(src)
+        except Exception as e:  # TranslatorError, SyntaxError of the source, ...
+            errors["kernels:" + group] = f"{type(e).__name__}: {e}"
+            if group == "countmin":
+                body = "Open Scope R_scope.\n" + "".join(
+                    f"Definition gen_{n.lstrip('_')} {sig} : R := -1.  (* translation failed *)\n" for n, _, sig in REAL_SIGS)
+            else:
+                body = _poison_int(POISON[group])
+            texts[fname] = "\n".join(HDR) + "\n(* TRANSLATION FAILED: " + str(e).replace("*)", "* )") + " *)\n" + body
+    return texts, errors
+
+
 if __name__ == "__main__":
     import sys
-    print(generate_kernels(sys.argv[1] if len(sys.argv) > 1 else "/repo"))
+    t, e = generate_kernels(sys.argv[1] if len(sys.argv) > 1 else "/repo")
+    for k, v in t.items():
+        print("=====", k)
+        print(v)
+    print("errors:", e)
